@@ -470,6 +470,9 @@ func RunCheck(cfg *CheckConfig) *CheckOutcome {
 			stubs[f] = true
 		}
 		for k, v := range rep.UnsupportedM {
+			if strings.HasPrefix(k, "(infeasible)") {
+				continue // diagnostic only: an infeasible path is decided
+			}
 			unsupported[h+": "+k] += v
 		}
 		if rep.Incomplete {
